@@ -674,7 +674,7 @@ func (r *runner) recoverStages(acked uint64, res *recoverLine) *stageError {
 	}
 
 	// 2. published restore outputs are sound (checked on a copy).
-	for _, name := range []string{"restored.db", "restored2.db", "restored3.db"} {
+	for _, name := range []string{"restored.db", "restored2.db", "v3-snaponly.db", "v3-committed.db", "v3-hdronly.db", "v3-midtx.db", "v3-multi.db", "v3-multilast.db", "v3-tscut.db"} {
 		out := r.outPath(name)
 		if _, err := os.Stat(out); err != nil {
 			continue
